@@ -269,7 +269,51 @@ def _compute_active_scope(
 
     active_nodes = {name: nodes[name] for name in nodes if name in active}
     active_subgraph = nx_graph.subgraph(active).copy()
+    if entrypoints is not None:
+        _link_other_producers(active_subgraph, active_nodes, nodes, nx_graph)
     return active_nodes, active_subgraph
+
+
+def _link_other_producers(
+    active_subgraph: nx.DiGraph,
+    active_nodes: dict[str, HyperNode],
+    nodes: dict[str, HyperNode],
+    nx_graph: nx.DiGraph,
+) -> None:
+    """Give the active producers of a shared name the edges of the first one.
+
+    A name produced by several nodes (exclusive gate branches) has its data and
+    ordering edges drawn from the producer listed first. When entry points
+    leave that producer out of the scope, the scoped graph would show the name
+    as produced by nobody - a required input - although an active node produces
+    it. The edge a reader has from the first producer is repeated from every
+    other active producer (in the scoped copy only).
+    """
+    producers: dict[str, list[str]] = {}
+    for node in nodes.values():
+        for out in node.outputs:
+            producers.setdefault(out, []).append(node.name)
+    shared = {name: names for name, names in producers.items() if len(names) > 1}
+    if not shared:
+        return
+
+    for reader in active_nodes.values():
+        for pred, _, data in nx_graph.in_edges(reader.name, data=True):
+            edge_type = data.get("edge_type")
+            if edge_type not in ("data", "ordering"):
+                continue
+            for name in data.get("value_names", ()):
+                if pred not in shared.get(name, ()):
+                    continue
+                for other in shared[name]:
+                    if other == pred or other == reader.name or other not in active_nodes:
+                        continue
+                    if active_subgraph.has_edge(other, reader.name):
+                        existing = active_subgraph.edges[other, reader.name]
+                        if existing.get("edge_type") == edge_type and name not in existing.get("value_names", []):
+                            existing["value_names"] = [*existing.get("value_names", []), name]
+                        continue
+                    active_subgraph.add_edge(other, reader.name, edge_type=edge_type, value_names=[name])
 
 
 def _active_from_entrypoints(
@@ -282,10 +326,34 @@ def _active_from_entrypoints(
     Everything upstream of entrypoints is excluded. Only the entrypoint
     nodes and their downstream descendants are active.
     """
-    active = set(entrypoint_nodes)
-    for ep in entrypoint_nodes:
-        active.update(nx.descendants(nx_graph, ep))
-    return active & set(nodes)
+    # A name produced by several nodes (exclusive gate branches) has its edges
+    # drawn from the producer listed first only, yet whichever producer runs
+    # feeds the same consumers and wakes the same waiting nodes: downstream of a
+    # producer of such a name is everything that reads or waits for the name.
+    producers: dict[str, int] = {}
+    for node in nodes.values():
+        for out in node.outputs:
+            producers[out] = producers.get(out, 0) + 1
+    shared = {name for name, count in producers.items() if count > 1}
+    readers: dict[str, set[str]] = {}
+    if shared:
+        for node in nodes.values():
+            for name in (*node.inputs, *node.wait_for):
+                if name in shared:
+                    readers.setdefault(name, set()).add(node.name)
+
+    active: set[str] = set()
+    worklist = list(entrypoint_nodes)
+    while worklist:
+        name = worklist.pop()
+        if name in active or name not in nodes:
+            continue
+        active.add(name)
+        successors = set(nx_graph.successors(name)) if name in nx_graph else set()
+        for out in nodes[name].outputs:
+            successors |= readers.get(out, set())
+        worklist.extend(successors - active)
+    return active
 
 
 def _active_from_selection(
